@@ -287,18 +287,14 @@ def orNil : Option Bytes → Bytes
   | some b => b
   | none => []
 
-/-- One loop iteration on the frame the underlying `PacketConn` has next.
-`buflen = len(b)` of the caller's buffer; the underlying `ReadFrom(pkt)` fills
-at most `len(pkt) = 60 + 8 + len(b)` bytes (datagram semantics: the rest of
-the frame is discarded). -/
-def readFrame (bound : Option Addr) (buflen : Nat) (frame : Bytes) : Res Step := do
-  let ipHdrMaxLen := ipv4MaximumHeaderSize
+/-- One loop iteration once the underlying `ReadFrom(pkt)` has returned `n`
+bytes: `pkt` is `pkt[:n]`.  `buflen = len(b)` of the caller's buffer. -/
+def readPkt (bound : Option Addr) (buflen : Nat) (pkt : Bytes) : Res Step := do
   let udpHdrLen := udpMinimumSize
-  let pkt := frame.take (ipHdrMaxLen + udpHdrLen + buflen)
   let n := pkt.length
   if n = 0 then pure .eof
   else
-    -- pkt = pkt[:n]; buf := NewBigEndianBuffer(pkt); ipHdr := ipv4(buf.Data())
+    -- buf := NewBigEndianBuffer(pkt); ipHdr := ipv4(buf.Data())
     let buf := Lexer.new pkt
     let ipHdr := buf.data
     if !(← isValid ipHdr n) then pure .skip
@@ -326,6 +322,12 @@ def readFrame (bound : Option Addr) (buflen : Nat) (frame : Bytes) : Res Step :=
             let (c, _) ← consumeI buf dhcpLen
             -- copy(b, <consumed>) : at most len(b) bytes
             pure (.deliver ((orNil c).take buflen) srcIP srcPort)
+
+/-- One loop iteration on the frame the underlying `PacketConn` has next: the
+underlying `ReadFrom(pkt)` fills at most `len(pkt) = 60 + 8 + len(b)` bytes
+(datagram semantics: the rest of the frame is discarded). -/
+def readFrame (bound : Option Addr) (buflen : Nat) (frame : Bytes) : Res Step :=
+  readPkt bound buflen (frame.take (ipv4MaximumHeaderSize + udpMinimumSize + buflen))
 
 /-- One `ReadFrom` call on the frames still queued: skips frames until one is
 delivered or reported as EOF; `none` when the queue runs dry (the underlying
